@@ -16,7 +16,9 @@ EXPLANATION = (
     "for each dequeued Envelope and awaits it to completion before the next select!, with the envelope's own payload / reply channel; "
     "the blanket PayloadHandler calls Message::handle once on every path with *self; the mailbox Receiver has one consumer (recv in "
     "the select!, close after the loop); every queued message owns an ActorRef and the loop holds no strong reference across the "
-    "select! (C07 rule), so 'all references dropped' cannot be observed before the queue is drained.")
+    "select! (C07 rule), so 'all references dropped' cannot be observed before the queue is drained. A tell that reports Timeout "
+    "was never enqueued: waiting for the slot is tell's only suspension point and the timed tell variants put exactly that tell under "
+    "their deadline.")
 
 
 def run(run):
